@@ -270,9 +270,11 @@ func c08One(c *ctx, inp *bgzfInput, d *Driver, impl *[]string) {
 	case 6+len(extra) > 0xffff || !validRunes(h.Name) || !validRunes(h.Comment):
 		expect = "gzip"
 	}
-	if expect != "ok" || h.expectedHeaderLen() > 300 {
-		// only generated with single-write scripts (one block of <= BlockSize bytes, then the empty block)
-		if len(kinds) != 2 || kinds[0] != 'w' || kinds[1] != 'c' || lens[0] > bgzfBS {
+	single := len(kinds) == 2 && kinds[0] == 'w' && kinds[1] == 'c' && lens[0] <= bgzfBS
+	if expect != "ok" || h.expectedHeaderLen() > 300 || single {
+		// failing settings are only generated with single-write scripts (one block of <= BlockSize bytes, then the
+		// empty block); for every single-write script the 64 KiB test is predicted exactly
+		if !single {
 			r.note("generator error: large header with a multi-block script")
 			return
 		}
@@ -457,7 +459,13 @@ func c08One(c *ctx, inp *bgzfInput, d *Driver, impl *[]string) {
 	}
 	// the reader half of C01's round trip on every header class (incl. strings >= 512 bytes, which gzip.Reader and
 	// the model both refuse): Member.readStream = the library reader on the produced bytes
-	if len(out) > 0 && (len(out)+len(flat) <= 24000 || c.rnd.coin(1, 10)) {
+	nearLimit := false
+	for _, m := range ms {
+		if m.Size >= bgzfMaxBS-2 {
+			nearLimit = true // BSIZE 0xfffd..0xffff: always run the reader-side tie
+		}
+	}
+	if len(out) > 0 && (len(out)+len(flat) <= 24000 || nearLimit || c.rnd.coin(1, 10)) {
 		readStreamTie(c, "c08", in, out, ms, 1+c.rnd.intn(3), d, impl)
 	}
 	hargs := h.drvArgs()
@@ -606,7 +614,7 @@ func checkC08(c *ctx) {
 			in.Ops = []string{fmt.Sprintf("w%d", rnd.pick([]int{0, 1, 5, 100, 1 + rnd.intn(3000), bgzfBS - 1, bgzfBS, 1 + rnd.intn(bgzfBS)})), "c"}
 			if i%5 != 0 && rnd.coin(1, 3) && validRunes(in.Header.Name) && validRunes(in.Header.Comment) {
 				// aim the MEMBER size at the 64 KiB limit: Extra sized so that the member is 65534..65538 bytes
-				n := rnd.pick([]int{0, 1, 100, 1 + rnd.intn(3000), 1 + rnd.intn(40000)})
+				n := rnd.pick([]int{0, 1, 100, 1 + rnd.intn(3000), 1 + rnd.intn(40000), bgzfBS, bgzfBS}) // incl. full (often incompressible) blocks
 				in.Ops = []string{fmt.Sprintf("w%d", n), "c"}
 				fl := len(flateOf(in.Level, scriptData(in.Data, in.DataSeed, n)))
 				in.Header.Extra = ""
